@@ -35,9 +35,18 @@ func c01E2E(c *vlib.Ctx, states, transitions, traces *int64) {
 		enumDAGs(cf.n, func(d dagSpec) { specs = append(specs, d) })
 		// every DAG is built twice: writes as single-key requests, and with all puts of a node sent as ONE batch request
 		// (POST keyvalues) after the node's deletes - the batch path clears same-version tombstones inside one write batch
-		vlib.Par(2*len(specs), 16, func(sj int) {
-			spec := specs[sj/2]
-			batchMode := sj%2 == 1
+		// ... and a third time with single-key requests that all carry the SAME bytes for a key, whichever node writes it:
+		// a descendant then re-posts exactly what it inherits, which must still count as that version's own write
+		vlib.Par(3*len(specs), 16, func(sj int) {
+			spec := specs[sj/3]
+			batchMode := sj%3 == 1
+			sameValue := sj%3 == 2
+			valueOf := func(code, node int) string {
+				if sameValue {
+					return fmt.Sprintf("v%d", code)
+				}
+				return fmt.Sprintf("v%d@%d", code, node)
+			}
 			n := cf.n
 			total := 1
 			for i := 0; i < n; i++ {
@@ -69,7 +78,7 @@ func c01E2E(c *vlib.Ctx, states, transitions, traces *int64) {
 				var batch []*proto.KeyValue
 				for code := 0; code < total; code++ {
 					key := fmt.Sprintf("k%d", code)
-					val := fmt.Sprintf("v%d@%d", code, i)
+					val := valueOf(code, i)
 					url := "node/" + uuids[i] + "/kv/key/" + key
 					var rs []vsrv.Resp
 					put := func() {
@@ -202,14 +211,14 @@ func c01E2E(c *vlib.Ctx, states, transitions, traces *int64) {
 					vctx := datastore.NewVersionedCtx(data, vid)
 					tk, _ := kvTKey(key)
 					dbv, dberr := db.Get(vctx, tk)
-					rep := map[string]interface{}{"dag": spec, "puts_sent_as_one_batch_per_node": batchMode, "placement_per_node(0 none,1 put,2 delete,3 put+delete,4 delete+put)": raw, "query": v, "expected_live_nodes": live}
+					rep := map[string]interface{}{"dag": spec, "puts_sent_as_one_batch_per_node": batchMode, "every_put_of_the_key_carries_the_same_bytes": sameValue, "placement_per_node(0 none,1 put,2 delete,3 put+delete,4 delete+put)": raw, "query": v, "expected_live_nodes": live}
 					cls := c01Class(spec, place, v, live)
 					if nontrivialE2E(anc, place, v) {
 						c.NontrivialDistinct(1)
 					}
 					switch len(live) {
 					case 1:
-						want := fmt.Sprintf("v%d@%d", code, live[0])
+						want := valueOf(code, live[0])
 						if r.Code != 200 || string(r.Body) != want {
 							c.Violate("e2e:GET:"+cls, fmt.Sprintf("DAG [%s] per-node ops %v: GET key at node %d expected %q, got %s", spec, raw, v, want, r), rep)
 						}
